@@ -2356,6 +2356,8 @@ class Interp:
                     res = res or table[cls]
                 elif cls == 'object':
                     res = True
+                elif cls in ('functools.partial', 'partial'):
+                    res = res or (isinstance(v, tuple) and bool(v) and v[0] == 'partial')
                 elif concrete and cls in ('datetime.date', 'datetime.datetime', 'REGEX_TYPE', 're.Pattern', 'uuid.UUID', 'date', 'datetime'):
                     pass
                 elif isinstance(v, ARegex) and cls in ('REGEX_TYPE', 're.Pattern', 'datetime.date', 'datetime.datetime', 'date', 'datetime', 'uuid.UUID'):
